@@ -364,6 +364,7 @@ func (in *Interp) installIntrinsics() {
 	}
 	I["vsched"] = func(in *Interp, args []Value) Value {
 		in.delaysLeft = int(args[0].(*Term).Int())
+		in.freezesLeft = in.delaysLeft
 		return nil
 	}
 	I["vyield"] = func(in *Interp, args []Value) Value {
